@@ -75,6 +75,26 @@ CHECKS = {'dfa_simulate_word': lambda c: chk_dfa(build(c['D']), c['w']), 'nfa_si
 def replay(case): return CHECKS[case['check']](case['case'])
 
 
+def child(seed, count):
+    """NFA / PDA simulations in this interpreter (its own PYTHONHASHSEED = other set-iteration orders), each call under a time limit"""
+    import random, json, signal
+    rnd = random.Random(seed); bad = []; n = 0
+    W3 = sorted(ref.words_upto('ab', 3))
+    def al(*_): raise TimeoutError()
+    for i in range(count):
+        N = E.random_nfa(rnd, rnd.randint(2, 5), 'ab', eps=rnd.choice(['', '_'])); P = E.random_pda(rnd, nq=3, nt=6)
+        for (name, f, X, key) in (('nfa_simulate_word', chk_nfa, N, 'N'), ('pda_simulate_word', chk_pda, P, 'P')):
+            for w in rnd.sample(W3, 4):
+                n += 1
+                signal.signal(signal.SIGALRM, al); signal.alarm(5)
+                try: ok, exp, obs = f(X, w)
+                except TimeoutError: ok, exp, obs = (name == 'pda_simulate_word'), 'terminates', 'no result after 5 s'
+                except Exception as e: ok, exp, obs = False, 'no exception', '%s: %s' % (type(e).__name__, e)
+                finally: signal.alarm(0)
+                if not ok and len(bad) < 5: bad.append({'check': name, 'case': {key: desc(X), 'w': w}, 'expected': str(exp), 'observed': str(obs)})
+    print('@@CHILD@@' + json.dumps({'n': n, 'bad': bad}))
+
+
 def run(R):
     rnd = R.rnd
     from .C07 import random_cnf
@@ -103,4 +123,13 @@ def run(R):
                 R.guard('cfg_derive_word', 'cfg-derivation', lambda: {'G': desc(G), 'w': w, 'kind': kind}, lambda: chk_cfg(G, w, kind) + (('r%d' % i, w, kind),), 'cfg_derive_word', timeout=10)
         D = E.random_dfa(rnd, rnd.randint(3, 5), 'ab')
         for w in rnd.sample(W3, 4): R.guard('dfa_simulate_word', 'dfa-trace', lambda: {'D': desc(D), 'w': w}, lambda: chk_dfa(D, w) + (('r%d' % i, w),), 'dfa_simulate_word')
-    R.bounds['traces'] = 'all DFAs <=2 states over {a,b}; a quarter of (thorough: all) epsilon-NFAs with 2 states over {a} (epsilon self-loops and cycles included); hand-written and seeded random PDAs; seeded random NFAs (2-5 states), CNF grammars (3-4 variables, several binary alternatives per variable) with leftmost / rightmost / any derivations; words <=3; every call under a 5-10 s limit'
+    import os, subprocess, sys, json
+    root = os.path.dirname(os.path.dirname(os.path.dirname(os.path.abspath(__file__))))
+    for hs in ([1, 2, 3] if R.tier == 'quick' else [1, 2, 3, 4, 5, 6, 7, 8]):
+        r = subprocess.run([sys.executable, '-c', 'import gvc.bounded.C15 as m; m.child(%d, %d)' % (R.seed + hs, 120 if R.tier == 'quick' else 600)], capture_output=True, text=True,
+                           env=dict(os.environ, PYTHONHASHSEED=str(hs)), cwd=root, timeout=1200)
+        line = [l for l in r.stdout.split('\n') if l.startswith('@@CHILD@@')]
+        if not line: R.fail('hash_seed', 'process-crash', {'hashseed': hs}, 'child completes', (r.stderr or r.stdout)[-400:]); continue
+        res = json.loads(line[0][9:]); R.evaluations += res['n']; R.groups.setdefault('other_hash_seeds', {'n': 0})['n'] += res['n']
+        for b in res['bad']: R.fail(b['check'], 'trace-' + b['check'], b['case'], b['expected'], b['observed'], b['check'])
+    R.bounds['traces'] = 'all DFAs <=2 states over {a,b}; a quarter of (thorough: all) epsilon-NFAs with 2 states over {a} (epsilon self-loops and cycles included); hand-written and seeded random PDAs; seeded random NFAs (2-5 states), CNF grammars (3-4 variables, several binary alternatives per variable) with leftmost / rightmost / any derivations; words <=3; every call under a 5-10 s limit; NFA / PDA simulations repeated in fresh interpreters with PYTHONHASHSEED 1..3 (thorough 1..8): other set-iteration orders'
